@@ -137,6 +137,8 @@ class Evaluator:
                 return a
             if is_unknown(b):
                 return b
+            if isinstance(a, tuple) or isinstance(b, tuple):
+                return _vec_binop(node.op, a, b)
             a, b = need(a), need(b)
             op = node.op
             if isinstance(op, ast.Add):
@@ -169,7 +171,7 @@ class Evaluator:
             return Unknown(f"subscript {ast.unparse(node)}")
         if isinstance(node, ast.Call):
             return self._call(node)
-        if isinstance(node, ast.Tuple):
+        if isinstance(node, (ast.Tuple, ast.List)):
             return tuple(self.ev(e) for e in node.elts)
         return Unknown(f"node {type(node).__name__}")
 
@@ -193,7 +195,7 @@ class Evaluator:
             if is_unknown(v):
                 return v
             return F.fn("abs", need(v))
-        if d in ("float", "np.asarray", "np.array", "np.atleast_1d", "np.real") and len(node.args) >= 1:
+        if d in ("float", "np.asarray", "np.array", "np.atleast_1d", "np.real", "complex") and len(node.args) >= 1:
             return self._ev(node.args[0])
         if isinstance(node.func, ast.Attribute) and node.func.attr in IDENT_METHODS:
             return self._ev(node.func.value)
@@ -216,6 +218,8 @@ class Evaluator:
             v = self.ev(st.value)
             if is_unknown(cur) or is_unknown(v):
                 nv = cur if is_unknown(cur) else v
+            elif isinstance(cur, tuple) or isinstance(v, tuple):
+                nv = _vec_binop(st.op, cur, v)
             else:
                 try:
                     nv = _binop(st.op, need(cur), need(v))
@@ -261,6 +265,34 @@ class Evaluator:
             self.stores.append((base, idx, v, st))
             if base is not None and base not in self.pinned and self.store_accept(base, idx, st):
                 self.env[base] = v
+
+
+def _vec_binop(op, a, b):
+    if isinstance(a, tuple) and isinstance(b, tuple):
+        if len(a) != len(b):
+            return Unknown("vector length mismatch")
+        pairs = list(zip(a, b))
+    elif isinstance(a, tuple):
+        pairs = [(x, b) for x in a]
+    else:
+        pairs = [(a, y) for y in b]
+    out = []
+    for x, y in pairs:
+        if is_unknown(x):
+            out.append(x)
+        elif is_unknown(y):
+            out.append(y)
+        elif isinstance(x, tuple) or isinstance(y, tuple):
+            out.append(_vec_binop(op, x, y))
+        else:
+            try:
+                if isinstance(op, ast.Pow):
+                    out.append(need(x) ** need(y))
+                else:
+                    out.append(_binop(op, need(x), need(y)))
+            except Unsupported as e:
+                out.append(Unknown(str(e)))
+    return tuple(out)
 
 
 def _load(t):
